@@ -222,6 +222,19 @@ def make_txt(shape: Dict[str, Any]) -> Any:
         ctx.check({k: (v or None) for k, v in lib.items()} == want if all(isinstance(k, bytes) and (v is None or isinstance(v, bytes)) for k, v in lib.items()) else False, 'ServiceInfo.properties does not return the keys and values as bytes')
         info2 = ServiceInfo('_http._tcp.local.', 'Alpha._http._tcp.local.', 80, properties=text)
         ctx.check(info2.properties == want, 'properties decoded from the TXT bytes differ')
+        # the string view of the same data (UTF-8 with replacement), read after the bytes view and again after a TXT update
+        def as_text(d: Dict[bytes, Optional[bytes]]) -> Dict[str, Optional[str]]:
+            return {k.decode('utf-8', 'replace'): (None if v is None else v.decode('utf-8', 'replace')) for k, v in d.items()}
+
+        ctx.check(info2.decoded_properties == as_text(want), 'decoded_properties is not the text form of the decoded keys and values')
+        info2._set_text(b'\x03z=9' + text)  # what a TXT record update does
+        want2: Dict[bytes, Optional[bytes]] = {b'z': b'9'}
+        want2.update({k: v for k, v in want.items() if k != b'z'})
+        ctx.check(info2.properties == want2 and info2.decoded_properties == as_text(want2), 'after a TXT update the decoded views still show the old data')
+        info3 = ServiceInfo('_http._tcp.local.', 'Alpha._http._tcp.local.')  # resolved later: the application reads the (empty) properties first
+        ctx.check(info3.properties == {} and info3.decoded_properties == {}, 'a description without TXT data has properties')
+        info3._set_text(text)
+        ctx.check(info3.properties == want and info3.decoded_properties == as_text(want), 'the decoded views stay empty after the first TXT record arrived')
 
     return fn
 
@@ -270,7 +283,7 @@ META = {
     'accepted => every documented rule holds and the return value is service label + trailer; rejected => some documented rule is violated. Templates place the symbolic characters in the '
     'service label, instance / subtype labels, protocol and suffix, at the 15/16-character, 63/64-octet and 256/257-character boundaries. txt[*]: ServiceInfo(properties=dict) with '
     'key / value lengths chosen by the solver (small ranges and the 255-octet item boundary, enumerated through realisation) against an independent RFC 6763 section 6 reader and the library decoder.',
-    'functions': ['zeroconf._utils.name.service_type_name (all branches)', 'zeroconf._services.info.ServiceInfo.__init__/_set_properties/_set_text/_unpack_text_into_properties/properties'],
+    'functions': ['zeroconf._utils.name.service_type_name (all branches)', 'zeroconf._services.info.ServiceInfo.__init__/_set_properties/_set_text/_unpack_text_into_properties/_generate_decoded_properties/properties/decoded_properties'],
     'bounds': {'symbolic characters per name': '<= 4 (quick) / <= 5 (thorough), alphabet of 15 code points', 'name length': '<= 300', 'TXT': '<= 3 items, key 2..7 octets and value 0..6 octets, plus one item of 247..255 octets'},
     'outside': ['characters outside the alphabet; more than 5 free characters; dots at symbolic positions', 'TXT octet *values* (structure and lengths only); items longer than 255 octets'],
     'stubs': ['string argument: vkit.symstr.SymStr (len, index, slice, ==, in, endswith, split on structural dots, encode -> symbolic UTF-8 length)',
